@@ -111,6 +111,17 @@ static lp_polynomial_t* scenario(int* kind) {
     val_root(&vals[0], n, c, -1);      /* the positive root a/(a+M) + .. */
     val_rat(&vals[1], rnd_in(-3, 3), 1 + rnd(3)); val_rat(&vals[2], rnd_in(-3, 3), 1);
     T = 0;
+  } else if (k < 90) {                /* non-monic: N x^2 - (N+1), values of x^3 - x, x^2 - 1 are tiny but non-zero */
+    *kind = 8;
+    long N = (long)(1000 + rnd(100000)) * (long)(1 + rnd(3000));
+    long c[3] = { -(N + 1), 0, N };
+    val_root(&vals[0], 2, c, chance(50) ? 0 : 1);
+    val_rat(&vals[1], rnd_in(-3, 3), 1 + rnd(3)); val_rat(&vals[2], rnd_in(-3, 3), 1);
+    unsigned t = rnd(4);
+    if (t == 0) T = P_sub(P_var(0, 3), P_var(0, 1));
+    else if (t == 1) T = P_sub(P_var(0, 2), P_const(1));
+    else if (t == 2) T = P_sub(P_scale(P_var(0, 2), N), P_const(N + 1));
+    else T = P_mul(P_sub(P_var(0, 2), P_const(1)), P_add(P_var(1, 2), P_const(1)));
   } else {                            /* random */
     *kind = 6;
     val_random(&vals[0]); val_random(&vals[1]); val_random(&vals[2]);
@@ -126,7 +137,7 @@ static lp_polynomial_t* build_poly(lp_polynomial_t* T, int kind) {
     lp_polynomial_t* p;
     if (v->type == LP_VALUE_ALGEBRAIC && v->value.a.f && chance(85)) {
       lp_algebraic_number_t c; lp_algebraic_number_construct_copy(&c, &v->value.a);
-      for (int t = rnd(4); t > 0 && c.f; --t) lp_algebraic_number_refine(&c);
+      for (int t = chance(40) ? rnd(4) : 16 + rnd(30); t > 0 && c.f; --t) lp_algebraic_number_refine(&c);   /* coarse, or closer than 2^-20 */
       lp_dyadic_rational_t m; lp_dyadic_rational_construct(&m);
       if (chance(50)) lp_algebraic_number_get_dyadic_midpoint(&c, &m); else lp_dyadic_rational_assign(&m, chance(50) ? &c.I.a : &c.I.b);
       lp_integer_t num, den; lp_integer_construct(&num); lp_integer_construct(&den);
@@ -140,6 +151,7 @@ static lp_polynomial_t* build_poly(lp_polynomial_t* T, int kind) {
     return p;
   }
   lp_polynomial_t* p;
+  if (kind == 8) return T;
   if (T && chance(85)) {
     lp_polynomial_t* q = chance(40) ? P_const(chance(50) ? 1 : rnd_in(-3, 3)) : hp_random_poly(0, 3, 1, 2);
     if (lp_polynomial_is_zero(q)) { lp_polynomial_delete(q); q = P_const(1); }
